@@ -8,6 +8,7 @@ import (
 	"errors"
 	"fmt"
 	"math/big"
+	"net/netip"
 	"strings"
 
 	"golang.org/x/crypto/ssh"
@@ -134,22 +135,7 @@ func getCertificateInfo(c *x509.Certificate) (Info, error) {
 		info.Attributes = append(info.Attributes, Attribute{"Max path length", fmt.Sprintf("%d", c.MaxPathLen)})
 	}
 
-	var sans []string
-	for _, san := range c.DNSNames {
-		sans = append(sans, san)
-	}
-
-	for _, san := range c.IPAddresses {
-		sans = append(sans, san.String())
-	}
-
-	for _, san := range c.URIs {
-		sans = append(sans, san.String())
-	}
-
-	for _, san := range c.EmailAddresses {
-		sans = append(sans, san)
-	}
+	sans := subjectAltNames(c)
 
 	if len(sans) > 0 {
 		info.Attributes = append(info.Attributes, Attribute{"SANs", strings.Join(sans, ", ")})
@@ -158,6 +144,91 @@ func getCertificateInfo(c *x509.Certificate) (Info, error) {
 	info.Attributes = append(info.Attributes, Attribute{"Signature algorithm", certSignatureAlgorithm(c)})
 
 	return info, nil
+}
+
+var oidSubjectAltName = asn1.ObjectIdentifier{2, 5, 29, 17}
+
+// subjectAltNames lists every name of the subjectAltName extension in the order encoded. crypto/x509 keeps only four of
+// the nine kinds of GeneralName (and re-serialises URIs and IP addresses); nothing that is encoded may be omitted here.
+func subjectAltNames(c *x509.Certificate) []string {
+	for _, e := range c.Extensions {
+		if e.Id.Equal(oidSubjectAltName) {
+			return generalNames(e.Value)
+		}
+	}
+	return nil
+}
+
+// generalNames walks a SEQUENCE OF GeneralName (RFC 5280 section 4.2.1.6).
+func generalNames(der []byte) []string {
+	var seq asn1.RawValue
+	rest, err := asn1.Unmarshal(der, &seq)
+	if err != nil || len(rest) != 0 || seq.Class != asn1.ClassUniversal || seq.Tag != asn1.TagSequence || !seq.IsCompound {
+		return nil
+	}
+	var out []string
+	for b := seq.Bytes; len(b) > 0; {
+		var v asn1.RawValue
+		if b, err = asn1.Unmarshal(b, &v); err != nil {
+			return nil
+		}
+		out = append(out, generalName(v))
+	}
+	return out
+}
+
+func generalName(v asn1.RawValue) string {
+	if v.Class != asn1.ClassContextSpecific {
+		return "generalName:" + hex.EncodeToString(v.Bytes)
+	}
+	switch v.Tag {
+	case 1, 2, 6: // rfc822Name, dNSName, uniformResourceIdentifier: the IA5String as it stands
+		return string(v.Bytes)
+	case 7:
+		if a, ok := netip.AddrFromSlice(v.Bytes); ok {
+			return a.String() // an IPv4-mapped IPv6 address stays one (net.IP.String would show it as IPv4)
+		}
+		return "iPAddress:" + hex.EncodeToString(v.Bytes)
+	case 8:
+		var id asn1.ObjectIdentifier
+		if rest, err := asn1.UnmarshalWithParams(v.FullBytes, &id, "tag:8"); err == nil && len(rest) == 0 {
+			return "registeredID:" + id.String()
+		}
+		return "registeredID:" + hex.EncodeToString(v.Bytes)
+	case 4:
+		return "dirName:" + names.FromRawDN(v.Bytes)
+	case 0:
+		return otherName(v.Bytes)
+	case 3:
+		return "x400Address:" + hex.EncodeToString(v.Bytes)
+	case 5:
+		return "ediPartyName:" + hex.EncodeToString(v.Bytes)
+	}
+	return "generalName:" + hex.EncodeToString(v.Bytes)
+}
+
+// otherName shows "otherName:<type-id>:<value>" (a Microsoft UPN is 1.3.6.1.4.1.311.20.2.3 with a UTF8String); the
+// value as text when it is a character string, else the hex of its encoding.
+func otherName(content []byte) string {
+	fallback := "otherName:" + hex.EncodeToString(content)
+	var id asn1.ObjectIdentifier
+	rest, err := asn1.Unmarshal(content, &id)
+	if err != nil {
+		return fallback
+	}
+	var wrapper, value asn1.RawValue
+	rest, err = asn1.Unmarshal(rest, &wrapper)
+	if err != nil || len(rest) != 0 || wrapper.Class != asn1.ClassContextSpecific || wrapper.Tag != 0 || !wrapper.IsCompound {
+		return fallback
+	}
+	if rest, err = asn1.Unmarshal(wrapper.Bytes, &value); err != nil || len(rest) != 0 {
+		return fallback
+	}
+	if value.Class == asn1.ClassUniversal && !value.IsCompound &&
+		(value.Tag == asn1.TagUTF8String || value.Tag == asn1.TagIA5String || value.Tag == asn1.TagPrintableString) {
+		return "otherName:" + id.String() + ":" + string(value.Bytes)
+	}
+	return "otherName:" + id.String() + ":" + hex.EncodeToString(wrapper.Bytes)
 }
 
 // certSignatureAlgorithm names the signature algorithm; one that crypto/x509 does not know (its String() is "0") is
